@@ -768,15 +768,19 @@ func (w *world) probe() []*HPayload {
 		} else {
 			tt = fosite.AccessToken
 		}
+		if e := ar.GetSession().GetExpiresAt(tt); !e.IsZero() {
+			v := e.Sub(w.epoch).Milliseconds()
+			p.Exp = &v
+		}
 		if w.jwt && tt == fosite.AccessToken {
 			// a JWT is read by resource servers from its own claims: scopes and audience are taken from there
 			if cl := jwtClaims(it.tok); cl != nil {
 				p.Scopes, p.Aud = claimStrings(cl["scp"]), claimStrings(cl["aud"])
+				if e, ok := cl["exp"].(float64); ok {
+					v := time.Unix(int64(e), 0).Sub(w.epoch).Milliseconds()
+					p.Exp = &v
+				}
 			}
-		}
-		if e := ar.GetSession().GetExpiresAt(tt); !e.IsZero() {
-			v := e.Sub(w.epoch).Milliseconds()
-			p.Exp = &v
 		}
 		out[i] = p
 	}
